@@ -104,7 +104,7 @@ Params(n, seps, ss, ts) ==
 GridsQ(z) == { <<Grid(v[1], v[2], v[3], v[4], v[5], v[6], v[7], v[8], 0, Cat8, AM)>> :
                v \in Params(3, {"line", "inline"}, 0..7, {0, 1, 3, 5}) }
 GridsT(z) == { <<Grid(v[1], v[2], v[3], v[4], v[5], v[6], v[7], v[8], u, Cat17, AMT)>> :
-               v \in Params(4, {"line", "inline", "mixed"}, 0..16, 0..16), u \in 0..1 }
+               v \in Params(4, {"line", "inline", "mixed"}, 0..16, {1, 2, 3, 5}), u \in 0..1 }
 \* a grid inside running text / inside a cell of another table
 Nested(z) == { <<T(<<"w0", "NL">>), g[1], T(<<"NL", "w9">>)>> : g \in { h \in GridsQ(z) : h[1].style.sp /\ Len(h[1].rows) = 2 } }
 \* a 2x2 grid in a cell of a 1x2 grid
